@@ -41,7 +41,7 @@ MANIFEST = dict(
        "function), the floating-point tile numbers of CMAC (the theorems take the cast `toNat` as an arbitrary function). Not modelled: sparse inputs, DropoutLayer (random), "
        "OpenCL back ends, Padding::RepeatBorder, floating-point rounding. Findings on the real code (modelled as repaired, inputs in corpus/C04, "
        "findings_proposed/C04.md): F-C04-1 Classifier single evaluation ignores the bias, F-C04-2 PoolingLayer input derivative accumulates into "
-       "the result object, F-C04-3 voting Ensemble of single-output classifiers writes out of bounds, F-C04-4 Conv2DModel input derivative wrong "
+       "the result object (F-C04-5: parameter-less NeuronLayer / ResizeLayer do not resize the gradient to 0), F-C04-3 voting Ensemble of single-output classifiers writes out of bounds, F-C04-4 Conv2DModel input derivative wrong "
        "(backprop filter layout; even filter sizes with zero padding).",
   technique="Lean 4 proofs (exact algebra over Rat, HasDerivAt/chain rule over Real, induction over the layer chain) + exact / bit-exact differential correspondence with the C++ models",
   design="§6 C04")
@@ -200,6 +200,7 @@ FINDINGS = {
     "F-C04-2": "pooling-derivative-accumulates",
     "F-C04-3": "ensemble-vote-single-output-overflow",
     "F-C04-4": "conv2d-input-derivative-filter-layout",
+    "F-C04-5": "parameterless-layer-gradient-not-resized",
 }
 
 
@@ -249,7 +250,7 @@ def cmp_tol(a, b):
 
 def _finding_key(ops, res):
     """name the known defects of the real code (stable keys, see findings_proposed/C04.md)"""
-    op = next((o for o in ops if not o.startswith("mode")), "")
+    op = next((o for o in ops if not o.startswith(("mode", "probe"))), "")
     hd = op.split("|")[0].split()
     tags = " ".join(res.oracle)
     if hd[:1] == ["classifier"] and len(hd) == 7 and hd[4] == "1" and "batch-row-differs-from-single" in tags:
@@ -258,6 +259,8 @@ def _finding_key(ops, res):
         return "F-C04-2"
     if hd[:2] == ["ensemble", "vote"] and len(hd) == 7 and hd[4] == "1" and res.crash:
         return "F-C04-3"
+    if hd[:1] in (["rowact"], ["resize"]) and "gradient-not-resized" in tags and "probe gradient-size 0" not in ops:
+        return "F-C04-5"
     if hd[:1] == ["conv"] and len(hd) == 11 and hd[10] == "1" and "input-derivative-differs-from-finite-differences" in tags:
         return "F-C04-4"
     return None
@@ -273,7 +276,7 @@ def _op_kind(o):
 
 def classify(ops, res):
     """key = <failure class>:<op kind>[:<oracle tag>]; failures are grouped (and reported once) per class and op kind"""
-    kinds = "+".join(sorted({_op_kind(o) for o in ops if not o.startswith("mode")}))
+    kinds = "+".join(sorted({_op_kind(o) for o in ops if not o.startswith(("mode", "probe"))}))
     fid = _finding_key(ops, res)
     if fid:
         return f"{fid}:{FINDINGS[fid]}", f"{fid} ({FINDINGS[fid]}) on {ops}"
@@ -312,6 +315,7 @@ def run(ctx):
     per = 200 if ctx.quick else 8000
     half = per // 2
     p1, p2, p3, p4 = ("F-C04-1" not in present, "F-C04-2" not in present, "F-C04-3" not in present, "F-C04-4" not in present)
+    gs = "probe gradient-size " + ("0" if "F-C04-5" in present else "1")     # parameter-less layers evaluated on their own
     exact_cases = [["mode rat", gen_dense(r, True)] for _ in range(per)] + [["mode rat", gen_concat(r, True)] for _ in range(per)] + \
                   [["mode rat", gen_chain(r, True)] for _ in range(per)] + \
                   [["mode rat", gen_normalizer(r)] for _ in range(half)] + [["mode rat", gen_classifier(r, p1)] for _ in range(per)] + \
@@ -319,18 +323,25 @@ def run(ctx):
                   [["mode rat", gen_kexp(r, True)] for _ in range(half)] + [["mode rat", gen_cmac(r)] for _ in range(half)] + \
                   [["mode rat", gen_conv(r, True, p4)] for _ in range(half)]
     float_cases = [["mode float", gen_dense(r, False)] for _ in range(per)] + [["mode float", gen_concat(r, False)] for _ in range(per)] + \
-                  [["mode float", gen_rowact(r)] for _ in range(per)] + [["mode float", gen_chain(r, False)] for _ in range(2 * per)] + \
-                  [["mode float", gen_resize(r)] for _ in range(half)] + [["mode float", gen_rbf(r)] for _ in range(per)] + \
+                  [["mode float", gs, gen_rowact(r), GS_ON] for _ in range(per)] + [["mode float", gen_chain(r, False)] for _ in range(2 * per)] + \
+                  [["mode float", gs, gen_resize(r), GS_ON] for _ in range(half)] + [["mode float", gen_rbf(r)] for _ in range(per)] + \
                   [["mode float", gen_kexp(r, False)] for _ in range(half)] + \
                   [["mode float", gen_ensemble(r, "mean", True)] for _ in range(half)] + [["mode float", gen_ensemble(r, "vote", p3)] for _ in range(half)] + \
                   [["mode float", gen_conv(r, False, p4)] for _ in range(half)]
     for c in exact_cases + float_cases:
-        ctx.hist("op_kinds", c[0].split()[1] + ":" + " ".join(c[1].split()[:2]))
+        ctx.hist("op_kinds", c[0].split()[1] + ":" + " ".join(_main_op(c).split()[:2]))
     ctx.cov["evaluations"] = len(exact_cases) + len(float_cases)
-    ctx.cov["distinct_nontrivial"] = len({c[1] for c in exact_cases + float_cases if _batch_size(c[1]) >= 2})
+    ctx.cov["distinct_nontrivial"] = len({_main_op(c) for c in exact_cases + float_cases if _batch_size(_main_op(c)) >= 2})
     ctx.sample({"ops": exact_cases[0]}); ctx.sample({"ops": float_cases[-1]})
     core.correspond(ctx, "K-C04[exact]", exact_cases, [exe], [drv], classify, env=ENV, max_report=8)
     core.correspond(ctx, "K-C04[float]", float_cases, [exe], [drv], classify, cmp=cmp_tol, env=ENV, max_report=8)
+
+
+GS_ON = "probe gradient-size 1"
+
+
+def _main_op(case):
+    return next(o for o in case if not o.startswith(("mode", "probe")))
 
 
 _B_POS = {"dense": 5, "concat": 8, "chain": 1, "rowact": 3, "normalizer": 3, "classifier": 5, "pool": 6, "resize": 6, "rbf": 5,
